@@ -96,7 +96,10 @@ Inductive case :=
 (* encode v at limit md_enc; if that gave bytes, decode them at limit md_dec *)
 | CValue (fl : flavour) (md_enc md_dec : N) (v : value) (enc : eres bytes) (dec : option (dres value))
 (* decode input at limit md; if that gave a value, encode it at limit md *)
-| CBytes (fl : flavour) (md : N) (input : bytes) (dec : dres value) (reenc : option (eres bytes)).
+| CBytes (fl : flavour) (md : N) (input : bytes) (dec : dres value) (reenc : option (eres bytes))
+(* the size codec on its own: Encoder::write_size n; Decoder::read_size on bytes -> (size, bytes left) *)
+| CWriteSize (n : N) (enc : eres bytes)
+| CReadSize (input : bytes) (r : result dec_err (N * N)).
 
 Definition check (c : case) : bool :=
   match c with
@@ -118,4 +121,8 @@ Definition check (c : case) : bool :=
     | _, Some _ => false
     | _, None => true
     end
+  | CWriteSize n enc => eres_eqb (write_size n) enc
+  | CReadSize input r =>
+    @result_eqb dec_err (N * N) dec_err_eqb (fun a b => (fst a =? fst b) && (snd a =? snd b))
+      (bind (read_size input) (fun p => Ok (fst p, nlen (snd p)))) r
   end.
